@@ -1,8 +1,10 @@
-"""Logical step budget: counts backward/forward JUMP + BRANCH-free loop progress via
-sys.monitoring JUMP events inside library code only.  Overflow raises
-StepBudgetExceeded (a BaseException) from the callback on *every* further event
-until the harness leaves the ``with`` block, so a bare ``except:`` inside the
-library cannot swallow the verdict."""
+"""Logical step budget: counts JUMP events (loop back-edges etc.) of sys.monitoring
+inside library code only.  Overflow raises StepBudgetExceeded (a BaseException) from
+the callback on *every* further event until the harness leaves the ``with`` block, so
+a bare ``except:`` inside the library cannot swallow the verdict.
+
+The tool is registered once per process; arming/disarming only toggles the event set
+(cheap enough to wrap every single operation of a long history)."""
 import os
 import sys
 
@@ -19,46 +21,67 @@ class StepBudgetExceeded(BaseException):
         self.where = where
 
 
+class _State(object):
+    registered = False
+    limit = 0
+    steps = 0
+    tripped = None
+    known = {}
+    depth = 0
+
+
+_S = _State()
+
+
+def _cb(code, src, dst):
+    k = _S.known.get(code)
+    if k is None:
+        k = _S.known[code] = code.co_filename.startswith(_prefix)
+    if not k:
+        return sys.monitoring.DISABLE
+    _S.steps += 1
+    if _S.steps > _S.limit:
+        if _S.tripped is None:
+            ln = "?"
+            try:
+                for start, end, line in code.co_lines():
+                    if start <= src < end:
+                        ln = line
+                        break
+            except Exception:
+                pass
+            _S.tripped = "%s:%s:%s" % (os.path.basename(code.co_filename), code.co_qualname, ln)
+        raise StepBudgetExceeded(_S.steps, _S.tripped)
+
+
 class budget(object):
-    """with budget(limit) as b: ... ; b.steps afterwards."""
+    """with budget(limit) as b: ... ; b.steps afterwards.  Not re-entrant (inner use is a no-op)."""
 
     def __init__(self, limit):
         self.limit = limit
         self.steps = 0
         self.tripped = None
-        self._known = {}
-
-    def _cb(self, code, src, dst):
-        k = self._known.get(code)
-        if k is None:
-            k = self._known[code] = code.co_filename.startswith(_prefix)
-        if not k:
-            return sys.monitoring.DISABLE
-        self.steps += 1
-        if self.steps > self.limit:
-            if self.tripped is None:
-                ln = "?"
-                try:
-                    for start, end, line in code.co_lines():
-                        if start <= src < end:
-                            ln = line
-                            break
-                except Exception:
-                    pass
-                self.tripped = "%s:%s:%s" % (os.path.basename(code.co_filename), code.co_qualname, ln)
-            raise StepBudgetExceeded(self.steps, self.tripped)
+        self._outer = False
 
     def __enter__(self):
         m = sys.monitoring
-        m.use_tool_id(_TOOL, "vf-budget")
-        m.register_callback(_TOOL, m.events.JUMP, self._cb)
-        m.set_events(_TOOL, m.events.JUMP)
-        m.restart_events()
+        if not _S.registered:
+            m.use_tool_id(_TOOL, "vf-budget")
+            m.register_callback(_TOOL, m.events.JUMP, _cb)
+            _S.registered = True
+        _S.depth += 1
+        if _S.depth == 1:
+            self._outer = True
+            _S.limit = self.limit
+            _S.steps = 0
+            _S.tripped = None
+            m.set_events(_TOOL, m.events.JUMP)
         return self
 
     def __exit__(self, et, ev, tb):
-        m = sys.monitoring
-        m.set_events(_TOOL, 0)
-        m.register_callback(_TOOL, m.events.JUMP, None)
-        m.free_tool_id(_TOOL)
+        _S.depth -= 1
+        if self._outer:
+            sys.monitoring.set_events(_TOOL, 0)
+            self.steps = _S.steps
+            self.tripped = _S.tripped
         return False
